@@ -113,6 +113,11 @@ func writeEvidence(prop, tier string, seed int, reg *Registry, ld *Loaded, runs 
 		"A-MAPORDER: no dependence on Go's map iteration order (maps are iterated in insertion order)",
 		"A-COMPOSE: the end-to-end statement follows from the unit obligations by the paper argument of DESIGN.md section 3",
 	}
+	if prop == "C15" {
+		assumptions = append(assumptions,
+			"RACE: on every explored path of every harness listed below each load/store of a memory cell and each map/slice-element access performed by the package's own code (and by metadata, container/list, grpchan on its behalf) is checked against a happens-before order built from vector clocks over the Go memory model's edges (go statement, mutex/RWMutex unlock->lock, channel send->receive, k-th receive->(k+cap)-th send, close->receive, atomics, Once, WaitGroup); an unordered conflicting pair is obligation C15.RACE@<pos>~<pos> and is reported only after `go test -race` on the natively compiled harness reports a race at one of the two positions. The T-RACE-BLIND twin (two unsynchronised appends) must be reported or the check fails as blind.",
+			"RACE-OUTSIDE: accesses by application code (the harness) to values the library hands out, element writes inside protobuf/reflect intrinsics, and races that need a thread set or input outside the harness bounds are not covered; verifDrain and terminal hooks are treated as the barrier a test would use to wait for the other goroutines")
+	}
 	assumptions = append(assumptions, ps.Assumptions...)
 	for _, r := range runs {
 		if b := r.spec.Bounds[tier]; b != "" {
